@@ -240,3 +240,35 @@ Definition run_expire_all_sync (start cnt : Z) :=
 Theorem tie_expire_all_sync : forall start cnt,
   run_expire_all_sync start cnt = Some ([("store", [VStr "cacheEntry.E"; VZ start])], Some (VZ (cnt + 1)), true).
 Proof. intros; reflexivity. Qed.
+
+(* ---- Load / Store: Read and Write under the background context (no TTL, no SkipRead) ---- *)
+Definition ls_prims (read_ok : bool) : prims := fun f args s =>
+  match f, args with
+  | "c.Read", [VPtr true "bgCtx"; VPtr true "key argument"] =>
+      Some (VTup [VStr "value read"; VPtr (negb read_ok) "read error"], emit "Read(bgCtx, key)" [] s)
+  | "c.Write", [VPtr true "bgCtx"; VPtr true "key argument"; v] => Some (VNil, emit "Write(bgCtx, key, val)" [v] s)
+  | "$zero", [VStr "V"] => Some (VZ 0, s)
+  | "$zero", [VStr _] => Some (VNil, s)
+  | _, _ => None
+  end.
+
+Definition run_load (f : gfunc) (read_ok : bool) : option (list effect * list value) :=
+  run (ls_prims read_ok) no_fcmp no_loop (fun vs s => Some (eff s, vs)) (fun _ => None) f
+      [VPtr true "c"; VPtr true "key argument"] [("bgCtx", VPtr true "bgCtx")] (fun _ => None).
+
+Theorem tie_load : forall read_ok,
+  run_load fn_shardedMap_Load read_ok =
+    Some ([("Read(bgCtx, key)", [])], if read_ok then [VStr "value read"; VB true] else [VNil; VB false]) /\
+  run_load fn_shardedMapOf_Load read_ok =
+    Some ([("Read(bgCtx, key)", [])], if read_ok then [VStr "value read"; VB true] else [VZ 0; VB false]).
+Proof. intros [|]; split; reflexivity. Qed.
+
+Definition run_store (f : gfunc) : option (list effect) :=
+  run (ls_prims true) no_fcmp no_loop (fun _ s => Some (eff s)) (fun _ => None) f
+      [VPtr true "c"; VPtr true "key argument"; VStr "value"]
+      [("bgCtx", VPtr true "bgCtx"); ("c.t.Log.logError", VPtr true "log")] (fun s => Some (eff s)).
+
+Theorem tie_store :
+  run_store fn_shardedMap_Store = Some [("Write(bgCtx, key, val)", [VStr "value"])] /\
+  run_store fn_shardedMapOf_Store = Some [("Write(bgCtx, key, val)", [VStr "value"])].
+Proof. split; reflexivity. Qed.
